@@ -546,6 +546,23 @@ func scenC06(g *Gen, dir string) ([]*Op, func(e *Env, i int, op *Op, obs []strin
 		}
 		s, v, covered = g.selection(groups)
 	}
+	if r.Chance(1, 6) {
+		// the image to be signed carries the builder's uid/gid in its descriptors (early releases
+		// recorded them; the fields are part of the descriptor integrity stream): whatever signing
+		// and later table rewrites do, what was signed has to verify
+		slot := r.Intn(2)
+		le := func(v uint64) []byte {
+			o := make([]byte, 8)
+			for k := 0; k < 8; k++ {
+				o[k] = byte(v >> (8 * k))
+			}
+			return o
+		}
+		ops = append(ops, &Op{Kind: "patch", Sites: []PatchSite{
+			{Off: int64(4096 + 585*slot + 57), B: le(uint64(1000 + r.Intn(5)))},
+			{Off: int64(4096 + 585*slot + 65), B: le(uint64(100 + r.Intn(5)))}}})
+		g.count("pre:descriptors-record-uid-gid")
+	}
 	signIdx := len(ops)
 	ops = append(ops, &Op{Kind: "sign", S: s}, factsOp(), &Op{Kind: "obs", Inv: !relocated})
 	verIdx := len(ops)
